@@ -32,7 +32,12 @@ CLAIMED = {'C01': {'text': 'Decides, for every public psutil.Process/Popen metho
                  "policy. Parse errors on truncated content and 'every later query raises "
                  "NoSuchProcess' are not decided. Also: the liveness probe used after ENOENT looks "
                  'at <pid>/stat, not at the <pid> directory (which outlives its entries during '
-                 'teardown).',
+                 'teardown). Per-descriptor / per-thread accesses: the except clause that '
+                 'actually receives ENOENT resp. ESRCH (first match, innermost try first) is '
+                 'evaluated for that errno and must not re-raise it. In the public Process class '
+                 'a clause covering NoSuchProcess around a query on self that does not re-raise '
+                 'must be one of three confirmed instances (identified by classes caught and '
+                 'queries made).',
          'note': 'Trusted: primitive raise table '
                  '(open/listdir/readlink/stat/kill/prlimit/natives), class hierarchy table, callee '
                  'resolution; fault model limited to errno failures and zombie state as the '
